@@ -27,10 +27,24 @@ PID = 'C16'
 LEAN_TARGETS = ['CfVerif.Props.C16']
 PROPS_MODULES = ['CfVerif.Props.C16']
 DRIVER = 'Driver/C16.lean'
-REQUIRED_THEOREMS = []
-TRUSTED = []
-ASSUMPTIONS = []
-RULE = ''
+REQUIRED_THEOREMS = ['CfVerif.C16.' + t for t in (
+    'align_applies_one_rigid_map', 'align_returns', 'align_preserves_distances', 'align_preserves_relative_orientation',
+    'residual_zero_iff_aligned', 'deflip_correct', 'align_exact_of_zero_residual', 'x_samples_on_positive_axis',
+    'scale_uniform', 'scale_fixed_point_exact', 'scale_diagonals_exact', 'intersection_on_plane_and_ray')]
+TRUSTED = ['harness/corr/c16.py extractor + correspondence',
+           'real numbers vs IEEE binary64: the theorems are about the model over R; the same definitions run over Float agree with numpy to 1e-11',
+           'scipy Rotation.from_rotvec(v).as_matrix() = Rodrigues rotation (model: rotVecToMat; scipy uses a Taylor series of sin(t/2)/t below 1e-3 rad)',
+           'numpy dot / mean / linalg.norm / concatenate / ravel on 3-vectors and 3x3 matrices as modelled (Mat3.mulVec, meanVec, Vec3.norm, list append)',
+           'copy.copy(pose) = new object sharing both attribute references; ndarray * float allocates a new array (heap model)']
+ASSUMPTIONS = ['NOT PROVED (validated by sampling only): scipy.optimize.least_squares reaches zero residual from the zero start within max_nfev=10 '
+               'for every misalignment < 30 deg / 3 m; the unchanged code misses this in ~0.3 % of sampled in-domain cases (known finding D17)',
+               'inputs are well-shaped: points are 3-vectors, poses hold a 3x3 matrix and a 3-vector, dict keys are ints',
+               'LighthouseBsVector.cart (float32 unit vector from two angles) is an input of the model (property C15 covers it)']
+RULE = ('correspondence cases = random rotation vectors (incl. 0, tiny, pi about axes, > pi), residual vectors for random parameters/sample sets '
+        '(incl. wrong parameter counts), de-flip on arbitrary raw poses covering all four flip outcomes and both error branches (decision ties '
+        'excluded), whole align with the optimiser answer captured by a spy (in-domain, noisy, and far out-of-domain mirror-flipped cases, empty '
+        'sample / base-station sets), scale_fixed_point, scale_diagonals / mean diagonal (incl. unknown ids, short sensor lists, unequal list lengths), '
+        'intersection points, and object-graph sharing patterns for _scale_system; non-trivial = distinct (kind, shape, first random value)')
 
 ALIGNER = 'cflib/localization/lighthouse_system_aligner.py'
 SCALER = 'cflib/localization/lighthouse_system_scaler.py'
